@@ -58,7 +58,7 @@ class FunctionSpec:
 # ------------------------------------------------------------------------------------------------ views
 def view(engine, st, v):
     """turn a symbolic value into something spec text can compute with"""
-    if isinstance(v, (VInt, VReal, VBool)):
+    if isinstance(v, (VInt, VReal, VBool, VRaw)):
         return v.t
     if isinstance(v, VEnum):
         return v.t
